@@ -43,8 +43,11 @@ RULE = ("machine: header (dim 1-4, cost shape scalar / vector of length 1-3 or '
         "canonical JSON of the case / the whole trace.")
 ASSUME = ["finite values are 0 or have magnitude in [1e-300, 1e300] (the property's range; y*k does not leave the "
           "normal range for the k drawn)",
-          "a.extend(a) / a.prepend(a) (a monitor combined with itself in place) are outside the domain: both loop "
-          "forever for k != None because the source is consumed lazily while it grows",
+          "a.extend(a) / a.prepend(a) (a monitor combined with itself in place) are outside the domain: prepend "
+          "always, extend for k != None, never returns because the source is consumed lazily while it grows",
+          "combine operations are skipped once the combined history would exceed 48 records (repeated a+a doubles it)",
+          "a call into mystic that never returns (e.g. in-place combination of two monitors that alias the same list) "
+          "is not detected by the harness: such a regression shows up as a hanging/killed worker, not as a VIOLATION",
           "index lists and min()/_solutions are exercised only on rectangular monitors (same dimension and cost shape "
           "in every record, non-empty); min() only for scalar costs without NaN",
           "file names handed to the munge readers are fresh module names (unique per case), the harness calls "
@@ -1098,7 +1101,7 @@ def run_files(case, ctx):
 # --------------------------------------------------------------------------- tests
 TESTS = [
     Test('machine', _run_machine, machine=machine_factory,
-         examples={'quick': 1800, 'thorough': 50000}, steps={'quick': 16, 'thorough': 40}),
+         examples={'quick': 1800, 'thorough': 30000}, steps={'quick': 16, 'thorough': 40}),
     Test('log', run_log, strategy=lambda tier: log_cases(tier),
          examples={'quick': 2000, 'thorough': 80000}),
     Test('files', run_files, strategy=lambda tier: file_cases(tier),
@@ -1150,10 +1153,4 @@ def _kf_stale_import(case, sub, detail):
     return sub == 'C20.reread' and isinstance(detail, dict) and detail.get('got_is_first_content') is True
 
 
-KNOWN = {
-    'C20-numpy-scalar-repr-not-readable': _kf_np_repr,
-    'C20-zero-d-cost-with-k': _kf_zero_d,
-    'C20-support-file-cost-divided-by-k-twice': _kf_cost_over_k,
-    'C20-raw_to_converge-tolist-on-mixed-costs': _kf_tolist,
-    'C20-read_import-stale-module': _kf_stale_import,
-}
+KNOWN = {}      # the defects this check found were repaired in /repo (see known_findings.json); predicates kept for reference
